@@ -314,6 +314,8 @@ def units(tier):
                     continue          # (81+ paths with sqrt(3) arithmetic: thorough tier)
                 if N >= 6 and len(ss) == 2 and sh not in ((), ss, ss[:1]):
                     continue
+                if N >= 3 and len(sh) == 2 and sh[0] * sh[1] == 6:
+                    continue          # (729 paths of 6N element queries each: more than an hour per unit from N = 3)
                 us.append(IntShift(N, ss, sh, cplx=True, crop=False))
     # crop / real / no start time / quantity variants on a smaller grid
     for N in ((2, 4) if tier == "quick" else (1, 2, 3, 4, 6)):
@@ -329,4 +331,7 @@ def units(tier):
                 continue          # (217 paths each: thorough tier)
             us.append(FracShift(N, ss, sh, cplx=True, crop=False))
             us.append(FracShift(N, ss, sh, cplx=(N != 2), crop=True, t0=(N != 4)))
+    if tier != "quick":
+        for u_ in us:
+            u_.budget_s = 3000        # (two-element shifts at N = 8: 361 paths of 16 DFT-sized queries, 10-20 min under load)
     return us
